@@ -302,6 +302,9 @@ func (ex *Exec) valTerm(v *Val) *Term {
 		if v.Loc.Kind == LHeap && v.Loc.PathS == "" {
 			return v.Loc.Ref
 		}
+		if os.Getenv("GOCV_DEBUG") != "" {
+			debug.PrintStack()
+		}
 		panic(oos("interior or local pointer used as a value (" + v.Loc.PathS + ")"))
 	}
 	if v.Fn != nil {
